@@ -63,7 +63,7 @@ package testing
 //@
 //@ // ---- C07: failure API
 //@ func (*T).Fail
-//@   props C07 C06
+//@   props C07 C06 C08
 //@   modifies t.failed, t.teardownFailed, Gmarks
 //@   ghost at exit : Gmarks = Gmarks + 1
 //@   ensures [flag] t.tearingDown ? (t.teardownFailed && t.failed == old(t.failed)) : (t.failed && t.teardownFailed == old(t.teardownFailed))
@@ -83,7 +83,7 @@ package testing
 //@   ensures result == t.failed
 //@
 //@ func (*T).TeardownFailed
-//@   props C06
+//@   props C06 C08
 //@   modifies nothing
 //@   ensures result == t.teardownFailed
 //@
@@ -131,7 +131,7 @@ package testing
 //@ // ---- C07/C06: recovery. handlePanic classifies a recovered value: nil = no panic, the FailNow sentinel =
 //@ // already marked by FailNow, anything else = mark failed now.
 //@ func handlePanic
-//@   props C07 C06
+//@   props C07 C06 C08
 //@   requires t != nil
 //@   requires errorsIs(recovered, errFailNow) ==> (t.tearingDown ? t.teardownFailed : t.failed)
 //@   modifies t.failed, t.teardownFailed, Gmarks
@@ -142,7 +142,7 @@ package testing
 //@   ensures [marks] Gmarks >= old(Gmarks) && (recovered == nil ==> Gmarks == old(Gmarks)) && (Gmarks > old(Gmarks) ==> (t.tearingDown ? t.teardownFailed : t.failed))
 //@
 //@ func CheckResults
-//@   props C07 C06
+//@   props C07 C06 C08
 //@   recovers
 //@   unreachable 1
 //@   requires t != nil && done == nil
